@@ -3,7 +3,7 @@ from .mcommon import *
 from .roles import classify_write, adt_of
 from .facts import strip_generics, Operand, Place
 from .analysis import sources, success_edges, reach_without_edges
-from .rules_C04 import hook_roles, apply_calls
+from .rules_C04 import hook_roles, apply_calls, hook_steps
 
 TECHNIQUE = 'field-write inventory of Metrics, dominance of the writes by every callback that receives &Metrics and by the success edges of the recycle steps, def-use origin of the metrics passed to retain predicates'
 LEVEL_TEXT = 'static analysis of every write to a Metrics field and every path of the recycler'
@@ -13,6 +13,52 @@ EXPLANATION = ('Decided: created is written only by the constructor of Metrics; 
                'cancel / unwind path; retain() passes the stored metrics of the queue element; the return path never touches metrics.')
 
 METRICS = 'deadpool::managed::metrics::Metrics'
+
+
+class _FieldWrite:
+    """a field write that a functional update of the whole struct stands for (quacks like the assign statement)"""
+    def __init__(self, stmt, op):
+        self.kind = 'assign'; self.line = stmt.line; self.place = stmt.place
+        class _RV:
+            pass
+        self.rv = _RV(); self.rv.ops = [op]; self.rv.kind = 'use'
+
+
+def _field_chain(an, op, depth=0):
+    """follow an operand through plain moves: ((owner, field) it reads, None) for a copy of a field, ((owner, field), ('add', k))
+    for `field + k` (checked or not), (None, None) otherwise"""
+    if op.kind == 'const' or depth > 8:
+        return None, None
+    p = op.place
+    lf = p.last_field()
+    if lf and not (len(p.proj) == 1 and p.proj[0] in ('.0', '.1') and an.b.locals[p.local]['ty'].startswith('(')):
+        return lf, None
+    ds = an.defs(p.local)
+    if len(ds) != 1 or ds[0][0] != 'stmt':
+        return None, None
+    rv = ds[0][3].rv
+    if rv.kind == 'use':
+        return _field_chain(an, rv.ops[0], depth + 1)
+    if rv.kind == 'bin' and str(rv.binop).startswith('Add') and rv.ops[1].kind == 'const':
+        root, how = _field_chain(an, rv.ops[0], depth + 1)
+        if root and how is None:
+            return root, ('add', str(rv.ops[1].const.get('v')))
+    return None, None
+
+
+def _metrics_aggregate(an, op, depth=0):
+    """the `Metrics { .. }` aggregate statement an operand is a (moved) copy of, or None"""
+    if op.kind == 'const' or op.place.proj or depth > 6:
+        return None
+    ds = an.defs(op.place.local)
+    if len(ds) != 1 or ds[0][0] != 'stmt':
+        return None
+    rv = ds[0][3].rv
+    if rv.kind == 'agg' and rv.j.get('adt') == METRICS:
+        return ds[0][3]
+    if rv.kind == 'use':
+        return _metrics_aggregate(an, rv.ops[0], depth + 1)
+    return None
 
 
 def run(ctx):
@@ -28,6 +74,7 @@ def run(ctx):
 
     # ---- R13.1 write inventory ------------------------------------------------------------------
     writes = []
+    updates = set()
     core = [b for b in prog.bodies.values() if b.path.startswith('deadpool::') or b.path.startswith('<deadpool::')]
     for b in core:
         ban = prog.an(b)
@@ -39,16 +86,29 @@ def run(ctx):
                     lf = s.place.last_field()
                     if lf and lf[0] == METRICS:
                         writes.append((b, blk, s, lf[1], classify_write(ban, s)))
-                    # whole-struct overwrite of an ObjectInner.metrics field
+                    # whole-struct overwrite of an ObjectInner.metrics field: a functional update `m = Metrics { f: .., ..m }` is read
+                    # as the field writes it stands for (fields carried over unchanged are no writes)
                     if lf and lf == (r.OBJINNER, 'metrics'):
-                        writes.append((b, blk, s, '*', ('=', ban.resolve_operand(s.rv.ops[0]) if s.rv.ops else '')))
+                        agg = _metrics_aggregate(ban, s.rv.ops[0]) if s.rv.ops else None
+                        if agg is None:
+                            writes.append((b, blk, s, '*', ('=', ban.resolve_operand(s.rv.ops[0]) if s.rv.ops else '')))
+                        else:
+                            updates.add(id(agg))
+                            for fname, op in zip(agg.rv.j['fields'], agg.rv.ops):
+                                root_, how_ = _field_chain(ban, op)
+                                if root_ == (METRICS, fname) and how_ is None:
+                                    continue          # carried over (`..self`)
+                                cw = ('=', '')
+                                if root_ == (METRICS, fname) and how_ is not None and how_[0] == 'add':
+                                    cw = ('+=', how_[1])
+                                writes.append((b, blk, _FieldWrite(s, op), fname, cw))
     got = sorted((b.name, f, op, v if op != '=' else '') for b, blk, s, f, (op, v) in writes)
     exp = sorted([(rec.name, 'recycle_count', '+=', '1_usize'), (rec.name, 'recycled', '=', '')])
     ctx.ob('R13.1', 'Metrics fields are written only in the recycler (recycle_count += 1, recycled = ..)', got == exp, ctx.where(rec),
            'found %s' % got, construct='metrics-writes', sites=[str(x) for x in got])
     for b, blk, s, f, (op, v) in writes:
         if f == 'recycled':
-            src = sources(prog.an(b), s.rv.ops[0])
+            src = sources(prog.an(b), s.rv.ops[0], deep=True)
             ok = any(x[0] == 'call' and x[1] == 'std::time::Instant::now' for x in src) and any(x[0] == 'agg' and x[1].endswith('Option::Some') for x in src)
             ctx.ob('R13.1', 'recycled is set to Some(Instant::now())', ok, ctx.where(b, s.line), str(sorted(src)), construct='metrics-recycled-value')
     # constructors of Metrics
@@ -56,7 +116,7 @@ def run(ctx):
     for b in core:
         for blk in b.blocks:
             for s in blk.stmts:
-                if s.kind == 'assign' and s.rv.kind == 'agg' and s.rv.j.get('adt') == METRICS and not blk.cleanup:
+                if s.kind == 'assign' and s.rv.kind == 'agg' and s.rv.j.get('adt') == METRICS and not blk.cleanup and id(s) not in updates:
                     cons.append((b, s))
     okc = len(cons) == 1 and cons[0][0].path == '<deadpool::managed::metrics::Metrics as std::default::Default>::default'
     ctx.ob('R13.1', 'Metrics is constructed only by Default::default', okc, '', str([(b.name, s.line) for b, s in cons]), construct='metrics-construct')
@@ -78,8 +138,8 @@ def run(ctx):
     # ---- R13.2 order in the recycler ------------------------------------------------------------------
     ran = prog.an(rec)
     wblocks = sorted({blk.idx for b, blk, s, f, w in writes if b.path == rec.path})
-    post = apply_calls(prog, r, rec, H['post_recycle'])
-    pre = apply_calls(prog, r, rec, H['pre_recycle'])
+    post, post_vac = hook_steps(prog, r, rec, H['post_recycle'])
+    pre, pre_vac = hook_steps(prog, r, rec, H['pre_recycle'])
     mrec = manager_calls(rec, MANAGER_RECYCLE)
     readies = [blk for blk in rec.blocks if blk.term.kind == 'call' and not blk.cleanup and blk.term.args and blk.term.args[0].kind == 'move'
                and adt_of(rec.locals[blk.term.args[0].place.local]['ty']) == r.UNREADY and not rec.locals[blk.term.args[0].place.local]['ty'].startswith('&')]
@@ -87,8 +147,10 @@ def run(ctx):
     if len(post) == 1 and len(pre) == 1 and len(mrec) == 1 and readies and wblocks:
         for w in wblocks:
             line = rec.blocks[w].stmts[0].line if rec.blocks[w].stmts else rec.blocks[w].term.line
-            for what, blk in (('pre_recycle hooks', pre[0]), ('Manager::recycle', mrec[0]), ('post_recycle hooks', post[0])):
-                ctx.ob('R13.2', 'metrics updated after %s saw the old values' % what, ran.dominates(blk.idx, w) and blk.idx != w, ctx.where(rec, line),
+            # (a hook list tested for emptiness is applied vacuously on its empty arm: nobody was there to see the old values)
+            for what, blks in (('pre_recycle hooks', pre + pre_vac), ('Manager::recycle', mrec), ('post_recycle hooks', post + post_vac)):
+                esc = ran.reach([0], ('normal',), avoid=[x.idx for x in blks])
+                ctx.ob('R13.2', 'metrics updated after %s saw the old values' % what, w not in esc and w not in [x.idx for x in blks if x in pre + post + mrec], ctx.where(rec, line),
                        'the write is not dominated by %s' % what, construct='metrics-after:' + what)
             reach = reach_without_edges(ran, post[0].idx, ok_e, ('normal',))
             ctx.ob('R13.2', 'metrics updated only after the post_recycle hooks succeeded', w not in reach, ctx.where(rec, line),
